@@ -391,17 +391,27 @@ func init() {
 	ws := witnessesFor("C03")
 	fw.Register(&fw.Check{ID: "C03", Level: "exploration",
 		Technique: "runtime monitoring: sequential Set/rollback histories through the real northbound and controllers; after every acknowledged operation whole-target and sub-path Gets (PROTO and JSON, wildcards, prefixes) are compared with an independent element-wise gNMI reference tree",
-		Rule: "cases = regression witnesses + PRNG histories of 5..22 operations on one target over the synthetic schema (leaf / container / list-entry / key-leaf deletes, re-creation under deleted ancestors, sibling names sharing textual prefixes, multi-key entries, rollbacks); every third case allows clashing operations inside one request (delete ancestor + update descendant, update + delete of one path); " +
+		Rule: "cases = regression witnesses + PRNG histories of 5..22 operations on one target over the synthetic schema (leaf / container / list-entry / key-leaf deletes, re-creation under deleted ancestors, sibling names sharing textual prefixes, multi-key entries, rollbacks); every third case allows clashing operations inside one request (delete ancestor + update descendant, update + delete of one path); the last two cases are a directed schedule (a mastership election that spans a commit and its apply); " +
 			"a case is non-trivial when at least one operation was committed; distinct_nontrivial = distinct sets of operation shapes",
 		Assumptions: s2Assumptions, CaseTimeout: 300e9,
 		Floors: map[string]int64{"acknowledged_operations": 1200, "get_queries": 4000, "non_empty_answers": 1500, "json_get_queries": 1500},
 		Cases: func(tier string) int {
 			if tier == "thorough" {
-				return len(ws) + 8000
+				return len(ws) + 8000 + 2
 			}
-			return len(ws) + 150
+			return len(ws) + 150 + 2
 		},
 		Run: func(c *fw.Case) {
+			n := len(ws) + 150
+			if c.Tier == "thorough" {
+				n = len(ws) + 8000
+			}
+			if c.Index >= n {
+				// directed: an election that spans a commit (and its apply) must not bring back what the stored
+				// configuration held before that commit
+				s2ElectionSpansCommitAndApply(c, "C03", c.Index == n+1)
+				return
+			}
 			if c.Index < len(ws) {
 				c.Count("regression_witnesses_replayed", 1)
 				c03Run(c, ws[c.Index].Steps, false)
